@@ -7,7 +7,7 @@
      is_straight_ranks rs : the five ranks are distinct and consecutive, the ace may play low;
      is_wheel_ranks rs    : the ranks are exactly A-5-4-3-2. *)
 From CKC Require Import Base.Prelude Spec.Layout Spec.Poker.
-From CKC Require Import Model.Five Proofs.FiveFacts Proofs.HandFacts Proofs.C13.
+From CKC Require Import Model.Five Model.HandRank Proofs.FiveFacts Proofs.HandFacts Proofs.C13 Proofs.C13Rank.
 Open Scope N_scope.
 
 Theorem C13_predicates : forall ws,
@@ -37,6 +37,17 @@ Theorem C13_category : forall ws,
   (is_straight_flush ws = true <-> c = STRAIGHT_FLUSH).
 Proof. exact category_ok. Qed.
 
+(* ... and with the category NAME obtained by ranking the same hand (a category-level reflection of the
+   lookup tables: Proofs/C13Rank.v) *)
+Theorem C13_rank_name : forall chk ws,
+  Hand5 ws ->
+  exists r,
+    rmap hr_from (hand_rank_value chk ws) = Ok r /\
+    (is_flush ws = true <-> hr_name r = NAME_FLUSH \/ hr_name r = NAME_STRAIGHT_FLUSH) /\
+    (is_straight ws = true <-> hr_name r = NAME_STRAIGHT \/ hr_name r = NAME_STRAIGHT_FLUSH) /\
+    (is_straight_flush ws = true <-> hr_name r = NAME_STRAIGHT_FLUSH).
+Proof. exact rank_name_ok. Qed.
+
 (* the deprecated free functions are the methods, for arbitrary words *)
 Theorem C13_deprecated : forall ws,
   evaluate_is_flush ws = is_flush ws /\ evaluate_or_rank_bits ws = or_rank_bits ws.
@@ -62,5 +73,6 @@ Proof. repeat split; vm_compute; reflexivity. Qed.
 Print Assumptions C13_predicates.
 Print Assumptions C13_straight_meaning.
 Print Assumptions C13_category.
+Print Assumptions C13_rank_name.
 Print Assumptions C13_deprecated.
 Print Assumptions C13_unrepaired_refuted.
